@@ -35,6 +35,12 @@ theorem mem_updateWhere {α} (p : α → Bool) (f : α → α) (l : List α) (y 
     refine ⟨x, hx, ?_⟩
     rcases h with ⟨hp, rfl⟩ | ⟨hp, rfl⟩ <;> simp [hp]
 
+theorem mem_takeLimit {α} (n : Int) (l : List α) (x : α) (h : x ∈ takeLimit n l) : x ∈ l := by
+  unfold takeLimit at h
+  split at h
+  · exact h
+  · exact List.mem_of_mem_take h
+
 /-! ### pointwise relation between two lists (core has no `Forall₂`) -/
 
 inductive Forall2 {α β : Type} (R : α → β → Prop) : List α → List β → Prop
